@@ -35,6 +35,11 @@ CLAIM = {
 }
 
 
+CLAIM["text"] += (" (R19.7) `the signer validates exactly the values the node sent`, at the one place where decoded request fields "
+                  "are stored for later validations: the SetupChannel handler fills ChannelSetup's shutdown scripts and contest "
+                  "delays from the request fields of the same role (same obligations as C07 R7.5 / C09 R9.4; evaluated where the "
+                  "build contains the protocol signer).")
+
 def run(ctx):
     ctx.explanation = CLAIM["text"]
     ctx.not_decided = "value-level round trip for all field values (rust-bitcoin PSBT codec trusted)"
@@ -50,6 +55,7 @@ def run(ctx):
     r194(ctx)
     r195(ctx)
     r196(ctx)
+    r197(ctx)
 
 
 
@@ -599,3 +605,31 @@ def r196(ctx):
                 n_exact += 1
                 ctx.ob("R19.6", True, f"{b.name}/read-exact", "", where=f"{b.file}:{c.line}", sample="read_exact into the frame buffer")
     ctx.floor("R19.6", "read calls in the raw frame readers of msgs.rs", n_exact, 2)
+
+
+def r197(ctx):
+    """decoded request -> stored ChannelSetup: roles (C07 R7.5, C09 R9.4).  The protocol signer is read from a second
+    program of the same fact base (this rule table itself loads the protocol crate only, so that its path names stay
+    independent of which other crates are present)."""
+    import glob as _glob
+    import os as _os
+    from engine import facts as _facts
+    have = any(_os.path.basename(f).startswith("vls_protocol_signer-") for f in _glob.glob(_os.path.join(ctx.prog.dir, "*.jsonl")))
+    if not have:
+        ctx.rule("R19.7", "decoded SetupChannel fields are stored under their own roles: not evaluated in this build "
+                          "configuration (no protocol signer in it)")
+        return
+    ctx.rule("R19.7", "decoded SetupChannel fields are stored under their own roles: ChannelSetup.holder/counterparty shutdown "
+                      "script <- local/remote_shutdown_script, holder/counterparty selected contest delay <- "
+                      "to_self_delay / remote_to_self_delay (value and presence)")
+    from rules import C07 as _c07
+    saved, saved_fv = ctx.prog, ctx.__dict__.get("_fv")
+    try:
+        ctx.prog = _facts.Program(saved.dir, crates=_c07.CRATES)
+        ctx.__dict__["_fv"] = {}
+        _c07.setup_roles(ctx, "R19.7", dict(_c07.SCRIPT_ROLES, **_c07.DELAY_ROLES),
+                         "the signer stores and later validates against a value the node did not send in that role")
+    finally:
+        ctx.prog = saved
+        if saved_fv is not None:
+            ctx.__dict__["_fv"] = saved_fv
